@@ -34,6 +34,24 @@ uint32_t X_vasprintf(uint8_t* outp_, uint8_t* fmt, uint8_t* va) {
   return g_len;
 }
 
+/* The same contract for snprintf/vsnprintf("%g") into a caller-supplied buffer (C99: at most size-1 characters are stored,
+ * the would-be length is returned), so that a serializer that formats into a fixed buffer is judged by the same rule
+ * (seeded change C04-m3: a 13-byte buffer truncates "-d.ddddde+ddd"). Other formats: real libc natively, unmodelled here. */
+#include <stdarg.h>
+#ifdef VERIF_NATIVE_REAL
+int vsnprintf(char* buf, size_t size, const char* fmt, va_list va);
+int snprintf(char* buf, size_t size, const char* fmt, ...) {
+  if (!(fmt[0] == '%' && fmt[1] == 'g' && fmt[2] == 0)) { va_list va; va_start(va, fmt); int r = vsnprintf(buf, size, fmt, va); va_end(va); return r; }
+#else
+uint32_t X_snprintf(uint8_t* buf, uint64_t size, uint8_t* fmt, ...) {
+  if (!(fmt[0] == '%' && fmt[1] == 'g' && fmt[2] == 0)) { ASSERT(0, "UNMODELLED printf format in snprintf"); ASSUME(0); }
+#endif
+  g_calls++;
+  for (unsigned i = 0; i < GMAX; i++) if (i < g_len && (uint64_t)i + 1 < size) buf[i] = (char)g_text[i];
+  if (size) buf[(g_len < size - 1) ? g_len : size - 1] = 0;
+  return g_len;
+}
+
 static int is_dig(uint8_t c) { return c >= '0' && c <= '9'; }
 
 /* RFC 8259 section 6 number grammar on [t, t+n): returns 1 if the whole text is a number; *has_frac_or_exp set */
